@@ -283,6 +283,12 @@ func (sc *simRoutesScenario) attrs(b *simBot, pfx, variant int) ([]bgp.PathAttri
 	if variant == 1 {
 		attrs = append(attrs, bgp.NewPathAttributeCommunities([]uint32{65000<<16 | 77}))
 	}
+	if variant == 4 && b != nil && !ebgp {
+		// a reflected route that has come back: ORIGINATOR_ID is this speaker's router id (input loop,
+		// RFC 4456 8). From an eBGP peer variant 4 is just another MED.
+		oid, _ := bgp.NewPathAttributeOriginatorId(netip.MustParseAddr(b.w.routerID))
+		attrs = append(attrs, oid)
+	}
 	return attrs, fam, nlri
 }
 
@@ -560,6 +566,9 @@ func (sc *simRoutesScenario) checkRib(w *simWorld, last *simEvent) {
 	for _, m := range sc.model {
 		b := w.bots[m.bot]
 		if m.variant == 3 { // contains the server's AS: rejected on input (for every peer type)
+			continue
+		}
+		if m.variant == 4 && b.spec.AS == w.serverAS { // iBGP: ORIGINATOR_ID is the local router id
 			continue
 		}
 		_, fam, nlri := sc.attrs(b, m.pfx, m.variant)
